@@ -4,19 +4,50 @@
 (* concurrent call returned the value of the same call executed alone.         *)
 (* The model (protocol "eager", model-checked by MC_Threads) has no race in    *)
 (* any configuration, so the implementation must have none either.             *)
-EXTENDS Integers, Sequences, TraceKit
+(*                                                                              *)
+(* The record also says which singleton accessors were called before the       *)
+(* threads started ("pre") and by the threads ("used"), observed at link time. *)
+(* They bind the run to the model's assumptions:                               *)
+(*   threads-cold   a cold configuration is cold: no static of program A or B  *)
+(*                  (stat[x] = "uninit" in InitCfg) was touched by main; a warm *)
+(*                  one is warm: all of them were.                              *)
+(*   threads-table  the statics the threads touched are exactly the "s" steps  *)
+(*                  of the two access programs (the table is "read from the     *)
+(*                  code"; this is the part of it that can be observed).        *)
+EXTENDS Integers, Sequences, FiniteSets, TraceKit
 
 CONSTANT ModelNames      \* number of program names of the model (sanity)
 VARIABLE l
 
+\* the access-program table of the model (the variables of Threads play no role here)
+TP == INSTANCE Threads WITH NThreads <- 3, Protocol <- "eager", cfg <- <<>>, pc <- <<>>, sub <- <<>>,
+                            stat <- <<>>, owner <- <<>>, filled <- <<>>
+ASSUME ModelNames = Cardinality(TP!Names)
+
+SeqSet(s) == {s[i] : i \in 1..Len(s)}
+StaticsOf(name) == {s[2] : s \in {x \in SeqSet(TP!Prog(name)) : x[1] = "s"}} \cap TP!Observable
+\* threads 0, 2, ... run program A, threads 1, 3, ... program B
+Expected(r) == StaticsOf(r.a) \cup (IF r.nt >= 2 THEN StaticsOf(r.b) ELSE {})
+
+Complete(r) == /\ r.known /\ r.rc = 0 /\ r.a \in TP!Names /\ r.b \in TP!Names
+               /\ Has(r, "pre") /\ Has(r, "used") /\ Has(r, "nt")
+
 Obligation(r) ==
-  CASE r.e = "conc" -> r.known /\ ~r.race /\ r.same /\ r.rc = 0
+  CASE r.e = "conc" -> r.known /\ ~r.race /\ r.same /\ r.rc = 0 /\ r.a \in TP!Names /\ r.b \in TP!Names
     [] OTHER -> FALSE
+
+ColdOk(r) == Complete(r) => IF r.cold THEN SeqSet(r.pre) \cap Expected(r) = {}
+                                      ELSE Expected(r) \subseteq SeqSet(r.pre)
+TableOk(r) == Complete(r) => SeqSet(r.used) = Expected(r)
 
 Init == l = 1 /\ KitInit
 Next == /\ l <= NT
-        /\ Require(Obligation(T[l]), l, IF T[l].race THEN "threads-race" ELSE IF T[l].same THEN "threads-run" ELSE "threads-value",
+        /\ Require(Obligation(T[l]), l, IF T[l].race THEN "threads-race" ELSE IF T[l].same \/ T[l].rc # 0 THEN "threads-run" ELSE "threads-value",
                    <<T[l].a, T[l].b, T[l].cold>>)
+        /\ IF T[l].e = "conc"
+           THEN /\ Require(ColdOk(T[l]), l, "threads-cold", <<T[l].a, T[l].b, T[l].cold>>)
+                /\ Require(TableOk(T[l]), l, "threads-table", <<T[l].a, T[l].b, T[l].cold>>)
+           ELSE TRUE
         /\ Consumed(l)
         /\ l' = l + 1
 =============================================================================
